@@ -2,10 +2,12 @@ package main
 
 import (
 	"runtime"
+
 	"context"
 	"crypto/tls"
 	"errors"
 	"fmt"
+	"github.com/jackc/pgx/v5/pgtype"
 	"io"
 	"log/slog"
 	"sort"
@@ -33,7 +35,7 @@ type Case struct {
 	Cuts  []int
 	RF    bool
 	EOF   bool // the client half-closes after its last byte: reads return io.EOF
-	WF    int // -1 none
+	WF    int  // -1 none
 	CX    bool
 	Extra map[string]string
 }
@@ -179,21 +181,21 @@ func segments(in []byte, cuts []int) [][]byte {
 
 // Result of running one case against the real server.
 type Result struct {
-	Out     [][]byte
-	At      []int
-	Ev      []string
-	End     string // w | c | hang
-	Done    []bool // per captured callback context: cancelled after the run
-	Retain  string // ok | corrupt:<what>
-	Closes  int
-	UserMap string // rendering of the user's global parameter map after the run
+	Out               [][]byte
+	At                []int
+	Ev                []string
+	End               string // w | c | hang
+	Done              []bool // per captured callback context: cancelled after the run
+	Retain            string // ok | corrupt:<what>
+	Closes            int
+	UserMap           string // rendering of the user's global parameter map after the run
 	MultiOut, MultiEv string // multi-connection cases: per-connection renderings joined by "/"
-	Alloc   int64  // bytes allocated (runtime TotalAlloc) while the connection was served; -1: not measured
-	Fin     string // "1": the server closed the connection after the client hung up; "0": it did not
-	By      string // bystander connection: ok | bad:<what> | "" (none)
-	Tap     string // TLS cases: verdict on the raw bytes the server put on the wire
-	HS      string // TLS cases: ok | fail | - (no handshake attempted)
-	Solo    string // multi-connection cases: ok | diff:<i> (connection i differs from its solo run)
+	Alloc             int64  // bytes allocated (runtime TotalAlloc) while the connection was served; -1: not measured
+	Fin               string // "1": the server closed the connection after the client hung up; "0": it did not
+	By                string // bystander connection: ok | bad:<what> | "" (none)
+	Tap               string // TLS cases: verdict on the raw bytes the server put on the wire
+	HS                string // TLS cases: ok | fail | - (no handshake attempted)
+	Solo              string // multi-connection cases: ok | diff:<i> (connection i differs from its solo run)
 }
 
 var discardLogger = slog.New(slog.NewTextHandler(io.Discard, nil))
@@ -218,7 +220,11 @@ func validateFn(s0 *session) func(ctx context.Context, database, username, passw
 }
 
 func buildServer(c *Case, s *session, tlsCfg *tls.Config) (*wire.Server, wire.Parameters, error) {
-	opts := []wire.OptionFn{wire.Logger(discardLogger), wire.MessageBufferSize(c.L)}
+	opts := []wire.OptionFn{wire.Logger(discardLogger), wire.MessageBufferSize(c.L),
+		// a user-registered type: every connection's type map must know it
+		wire.ExtendTypes(func(m *pgtype.Map) {
+			m.RegisterType(&pgtype.Type{Name: "ztext", OID: 90001, Codec: zcodec{}})
+		})}
 	if c.Auth {
 		opts = append(opts, wire.SessionAuthStrategy(wire.ClearTextPassword(validateFn(s))))
 	}
